@@ -247,7 +247,7 @@ pub fn base_movies(ctx: &Ctx) -> Vec<Movie> {
     seed[..8].copy_from_slice(&ctx.seed.to_le_bytes());
     seed[8] = 0x12;
     let mut runner = proptest::test_runner::TestRunner::new_with_rng(proptest::test_runner::Config::default(), proptest::test_runner::TestRng::from_seed(proptest::test_runner::RngAlgorithm::ChaCha, &seed));
-    let n = ctx.pick(10usize, 60usize);
+    let n = ctx.pick(30usize, 100usize);
     for i in 0..n {
         v.push(gen::draw(&movie_strategy(), &mut runner));
         let _ = i;
@@ -296,7 +296,7 @@ pub fn run(ctx: &mut Ctx) {
     ctx.extra.insert("single_sites_total".into(), serde_json::json!(total_sites));
     ctx.extra.insert("base_movies".into(), serde_json::json!(bases.len()));
     ctx.stage("combinations");
-    let cases = ctx.pick(10_000u32, 400_000u32) / ctx.nshards;
+    let cases = ctx.pick(150_000u32, 1_500_000u32) / ctx.nshards;
     let strat = (movie_strategy(), prop::collection::vec((any::<u16>(), any::<u16>()), 2..=6)).prop_map(|(movie, picks)| Case { movie, picks, resolved: vec![] });
     ctx.run_prop(strat, cases, |ctx, c| oracle(ctx, c));
 }
